@@ -29,6 +29,16 @@ P.assume("bookkeeping: reb_simulation_warning only records a message (contract: 
 P.assume("rescale: exp/log: exp(log(s)) = s for s > 0 (engine axiom of log) and the functional equation "
          "exp(a + log s) = exp(a) * s, supplied as a hypothesis at the one instance used")
 
+P.assume("megno.deltad_delta: prefix sums S_deltad(i) = sum_{cm <= k < i} (dv_k.dx_k + da_k.dv_k), S_delta2(i) = sum (|dx_k|^2 + "
+         "|dv_k|^2) are uninterpreted functions defined by S(cm) = 0 and the step equation instantiated at the loop index; the "
+         "sum of squares of the MEGNO set is non-zero (otherwise the routine divides by zero)")
+P.assume("FINDING megno.update.comoments.step (kept, fails on the unchanged tree, natively reproduced by "
+         "tools/repro/C16_megno_update_comoments_not_welford.py): reb_tools_megno_update adds (n-1)/n (t - mean_t')(Y - mean_Y') with the ALREADY "
+         "UPDATED means; Welford's update uses the deviations from the OLD means (or old*new); the code's increments are too "
+         "small by the factor ((n-1)/n)^2, so megno_var_t / megno_cov_Yt are not the sums of squared deviations / deviation "
+         "products and reb_simulation_lyapunov is not the least-squares slope it is documented to be (samples t=1,2,3: var_t "
+         "0.7917 instead of 2; lyapunov() 0.0940 vs slope 0.1056); both converge to the same limit for long runs")
+
 I, R = z3.IntSort(), z3.RealSort()
 VC = "struct reb_variational_configuration"
 T = "struct reb_particle"
@@ -299,10 +309,6 @@ def _(v):
     def term_2(i):
         g = lambda f: z3.Select(A[f], i)
         return sum((g(f) * g(f) for f in PV[1:]), g("x") * g("x"))
-    P.assume("megno.deltad_delta: prefix sums S_deltad(i) = sum_{cm <= k < i} (dv_k.dx_k + da_k.dv_k), S_delta2(i) = sum (|dx_k|^2 + "
-             "|dv_k|^2) are uninterpreted functions defined by S(cm) = 0 and the step equation instantiated at the loop index") \
-        if not getattr(P, "_megno_note", False) else None
-    P._megno_note = True
     v.assume(SD(cm) == 0, S2(cm) == 0)
 
     def inv(L):
